@@ -20,7 +20,7 @@ RULE = ('operators (+ - * / ** neg ==, reflected with plain numbers), value(unit
         'distinct by (operation, operand kinds and units, follow-up steps)')
 SHARDS = {'quick': 16, 'thorough': 16}
 MIN_NONTRIVIAL = {'quick': 2500, 'thorough': 60000}
-REQUIRED_CLASSES = ['kind:same-dimension-units-in-one-expression', 'reflected-numpy', 'neutral-element-operand', 'op:+', 'op:-', 'op:*', 'op:/', 'op:==', 'op:pow', 'op:neg', 'op:getitem', 'op:value', 'op:ufunc', 'op:func',
+REQUIRED_CLASSES = ['kind:same-dimension-units-in-one-expression', 'reflected-numpy', 'neutral-element-operand', 'op:+', 'op:-', 'op:*', 'op:/', 'op:==', 'op:pow', 'op:neg', 'op:getitem', 'op:value', 'op:ufunc', 'op:func', 'op:builtin-sum',
                     'reflected', 'kind:same-unit', 'kind:other-unit', 'kind:reciprocal', 'kind:nodim', 'kind:log', 'kind:temp',
                     'kind:decimal', 'kind:array', 'kind:uncertain', 'followup:to', 'followup:rebase', 'followup:abse', 'followup:rele',
                     'followup:write', 'followup-on-result', 'followup-on-operand', 'twin-probe', 'repo-tests-under-contracts']
@@ -29,7 +29,7 @@ REQUIRED_MONITORS = ['contract:Quantity.__add__', 'contract:Quantity.__sub__', '
                      'contract:Quantity.__array_ufunc__', 'contract:Quantity.value', 'contract:Quantity.to', 'contract:Quantity.rebase',
                      'contract:Quantity.abse', 'contract:Quantity.rele', 'contract:HANDLED.linspace', 'contract:HANDLED.logspace',
                      'contract:Quantity.__radd__', 'contract:Quantity.__rsub__', 'contract:Quantity.__rmul__', 'contract:Quantity.__rtruediv__',
-                     'twin_probes', 'aliasing_compares', 'repo_tests_contract_evaluations']
+                     'twin_probes', 'aliasing_compares', 'result_identity_checks', 'repo_tests_contract_evaluations']
 ASSUMPTIONS = ['fingerprint = type+bytes of value, error, units text, unit exponents, type+value of the cached unit factor',
                'an operation may raise; then the operands must still be unchanged',
                'contracts are record-only (they never abort the observed call)']
@@ -38,6 +38,7 @@ KEY_SUM = 'C07-sum-converts-right-operand'
 KEY_EQ = 'C07-eq-converts-right-operand'
 KEY_LOGSUM = 'C07-level-sum-overwrites-operands'
 KEY_TRIG = 'C07-trig-converts-operand'
+KEY_ARC = 'C07-inverse-trig-converts-operand'
 KEY_LINSPACE = 'C07-linspace-converts-argument'
 KEY_DECIMAL = 'C07-decimal-partner-promotes-operand'
 
@@ -57,7 +58,7 @@ FAM = {
 RECIP = {'time': 'freq', 'freq': 'time'}
 LOGS = ['dBm', 'dBW', 'dB', 'dBV', 'Bm', 'dBSPL']
 TEMPS = ['K', 'Cel', 'degF', 'degR', 'mK']
-UFUNCS = ['sqrt', 'cbrt', 'power', 'sin', 'cos', 'tan', 'arcsin', 'arctan', 'isnan', 'absolute', 'negative', 'square']
+UFUNCS = ['sqrt', 'cbrt', 'power', 'sin', 'cos', 'tan', 'arcsin', 'arccos', 'arctan', 'isnan', 'absolute', 'negative', 'square']
 FUNCS = ['linspace', 'logspace', 'abs', 'round', 'floor', 'ceil', 'sum', 'absolute']
 
 
@@ -143,6 +144,8 @@ def cases(rng, tier, shard, nshards, ctx):
             op = dict(k='eq', side=rng.choice(['QQ', 'QQ', 'Qn']), num=rng.choice([2.0, 1]))
         elif o < 0.58:
             op = dict(k='pow', e=rng.choice([2, -1, 3, [1, 2], 0.5, [3, 2], 0, 1]))
+        elif o < 0.605:
+            op = dict(k='pysum', n=rng.choice([1, 1, 2]))
         elif o < 0.62:
             op = dict(k='neg')
         elif o < 0.67:
@@ -157,8 +160,12 @@ def cases(rng, tier, shard, nshards, ctx):
             f = rng.choice(UFUNCS)
             if f in ('sin', 'cos', 'tan') and rng.random() < 0.8:
                 a['u'] = rng.choice(FAM['angle'] + [None]); a['dec'] = False
-            if f in ('arcsin', 'arctan'):
-                a['u'] = None; a['v'] = [0.1, 0.5, -0.3] if arr else 0.4; a['dec'] = False
+            if f in ('arcsin', 'arccos', 'arctan'):
+                # the argument of an inverse angle function is a pure number, written plainly or in a dimensionless unit
+                a['u'] = rng.choice([None, '%', 'ppth', '%'])
+                sc = {None: 1.0, '%': 100.0, 'ppth': 1000.0}[a['u']]
+                a['v'] = [0.1 * sc, 0.5 * sc, -0.3 * sc] if arr else 0.4 * sc
+                a['dec'] = False
             op = dict(k='ufunc', f=f, arg=rng.choice([2, 0.5, 3]))
         else:
             f = rng.choice(FUNCS)
@@ -237,6 +244,8 @@ def classify_alteration(case, which, before, after, ctx):
         return KEY_EQ
     if op['k'] == 'ufunc' and op['f'] in ('sin', 'cos', 'tan') and which == 'a' and after[2] == 'rad':
         return KEY_TRIG
+    if op['k'] == 'ufunc' and op['f'] in ('arcsin', 'arccos', 'arctan') and which == 'a' and before[2] is not None and after[2] is None:
+        return KEY_ARC
     if op['k'] == 'func' and op['f'] in ('linspace', 'logspace'):
         return KEY_LINSPACE
     return None
@@ -335,6 +344,10 @@ def _run(case, ctx):
                     res = f(1.0, A, op['n'])
             else:
                 res = f(A)
+        elif k == 'pysum':
+            classes.append('op:builtin-sum')
+            uses_b = op['n'] == 2
+            res = sum([A, B] if op['n'] == 2 else [A])
     except Exception as e_:
         exc = e_
     records = C.take_records()
@@ -358,6 +371,12 @@ def _run(case, ctx):
     for r in records:
         if r['obj'] not in (id(A), id(B)):
             devs.append(dev('contract:%s:%s-other-live-quantity-changed' % (r['method'], r['contract']), dict(op=op, record=r)))
+    # ---- (1b) the result is a new object: a result that IS an operand shares all of its state with it
+    mon['result_identity_checks'] = 1
+    for which, q in (('a', A), ('b', B)):
+        if res is q:
+            devs.append(dev('%s-returns-the-%s-operand-itself' % (opname(op), 'first' if which == 'a' else 'second'),
+                            dict(op=op, a=a_spec, b=b_spec)))
     # ---- (2) twin differential
     if not changed:
         alt = None
@@ -482,6 +501,8 @@ def run_repo_tests(case, ctx):
                      'Quantity.__eq__': KEY_EQ, 'HANDLED.linspace': KEY_LINSPACE, 'HANDLED.logspace': KEY_LINSPACE}.get(r['method'])
             if r['method'] == 'Quantity.__array_ufunc__' and r['after'].get('units') == 'rad':
                 known = KEY_TRIG
+            if r['method'] == 'Quantity.__array_ufunc__' and r['before'].get('units') is not None and r['after'].get('units') is None:
+                known = KEY_ARC
             if r['method'] in ('Quantity.__add__', 'Quantity.__sub__') and str(r['before'].get('units', '')).find('B') >= 0 and r['before'].get('units') == r['after'].get('units'):
                 known = KEY_LOGSUM
             if r['after'].get('unit_factor', [''])[0] == 'Decimal' or r['after'].get('value', [''])[0] == 'Decimal' and r['before'].get('value', [''])[0] != 'Decimal':
@@ -500,6 +521,7 @@ def pinned(ctx):
         (KEY_EQ, dict(t='op', a=dict(v=1.0, u='m', **z), b=dict(v=100.0, u='cm', **z), kind='other-unit', op=dict(k='eq', side='QQ', num=1), fus=[])),
         (KEY_LOGSUM, dict(t='op', a=dict(v=20.0, u='dBm', **z), b=dict(v=10.0, u='dBm', **z), kind='log', op=dict(k='bin', op='+', side='QQ', num=2.0), fus=[])),
         (KEY_TRIG, dict(t='op', a=dict(v=30.0, u='deg', **z), b=dict(v=1.0, u='deg', **z), kind='same-unit', op=dict(k='ufunc', f='sin', arg=2), fus=[])),
+        (KEY_ARC, dict(t='op', a=dict(v=25.0, u='%', **z), b=dict(v=1.0, u='%', **z), kind='same-unit', op=dict(k='ufunc', f='arcsin', arg=2), fus=[])),
         (KEY_LINSPACE, dict(t='op', a=dict(v=1.0, u='m', **z), b=dict(v=300.0, u='cm', **z), kind='other-unit', op=dict(k='func', f='linspace', n=3, first='a'), fus=[])),
         (KEY_DECIMAL, dict(t='op', a=dict(v=1.5, u='m', abse=None, dec=True), b=dict(v=50.0, u='cm', **z), kind='decimal', op=dict(k='bin', op='*', side='QQ', num=2.0), fus=[['b', ['to', 'mm']]])),
     ]
